@@ -1,3 +1,152 @@
-use anyhow::{bail, Result};
-pub fn replay(_vecs: &str, _out: &str) -> Result<()> { bail!("todo") }
-pub fn record(_seed: u64, _n: usize, _out: &str) -> Result<()> { bail!("todo") }
+//! C25: the real `wit_bindgen_core::Source` driven by TLC histories (replay) and by seeded
+//! random histories whose observations TLC validates against the same model (record).
+//!
+//! The private fields are projected through the public API only: the text with `as_str`,
+//! the indentation level, the "continuing line" flag and the comment flag with probes on
+//! re-executed copies of the history.
+use anyhow::Result;
+use serde_json::{json, Value};
+use std::fmt::Write;
+use vcommon::*;
+use wit_bindgen_core::Source;
+
+fn text(v: &Value) -> String {
+    v.as_array().unwrap().iter().map(|c| c.as_str().unwrap()).collect()
+}
+
+fn apply(s: &mut Source, op: &str, txt: &str) {
+    match op {
+        "push" => s.push_str(txt),
+        "write" => write!(s, "{txt}").unwrap(),
+        "lit" => s.push_str_literal(txt),
+        "indent" => s.indent(1),
+        "deindent" => s.deindent(1),
+        _ => panic!("unknown op {op}"),
+    }
+}
+
+fn build(hist: &[(String, String)]) -> Source {
+    let mut s = Source::default();
+    for (op, txt) in hist {
+        apply(&mut s, op, txt);
+    }
+    s
+}
+
+fn leading_spaces_of_last_line(s: &str) -> usize {
+    let last = s.rsplit('\n').next().unwrap();
+    last.len() - last.trim_start_matches(' ').len()
+}
+
+/// (text, indent, continuing, in_comment) of the real buffer after `hist`.
+pub fn project(hist: &[(String, String)]) -> (String, usize, bool, bool) {
+    let base = build(hist);
+    let text = base.as_str().to_string();
+    // indent: a literal "\nQ" always starts a fresh line and indents "Q" by the current level
+    let mut p = build(hist);
+    p.push_str_literal("\nQ");
+    let indent = leading_spaces_of_last_line(p.as_str()) / 2;
+    // continuing: after indent(1) a literal "Q" is indented iff a new line is being started
+    let mut p = build(hist);
+    p.indent(1);
+    p.push_str_literal("Q");
+    let grown = p.as_str().len() - text.len();
+    let cont = grown == 1;
+    // in_comment: "{" raises the level unless a line comment is open
+    let mut p = build(hist);
+    p.push_str("{");
+    p.push_str_literal("\nQ");
+    let after = leading_spaces_of_last_line(p.as_str()) / 2;
+    let in_c = after == indent;
+    (text, indent, cont, in_c)
+}
+
+fn hist_of(v: &Value) -> Vec<(String, String)> {
+    v["hist"]
+        .as_array()
+        .unwrap()
+        .iter()
+        .map(|s| (s["op"].as_str().unwrap().to_string(), text(&s["txt"])))
+        .collect()
+}
+
+pub fn replay(vecs: &str, out: &str) -> Result<()> {
+    let vecs = read_ndjson(vecs)?;
+    let mut w = NdjsonWriter::create(out)?;
+    silence_panics();
+    for (i, v) in vecs.iter().enumerate() {
+        let hist = hist_of(v);
+        let exp = (
+            text(&v["s"]),
+            v["indent"].as_u64().unwrap() as usize,
+            v["cont"].as_bool().unwrap(),
+            v["inC"].as_bool().unwrap(),
+        );
+        match std::panic::catch_unwind(|| project(&hist)) {
+            Ok(got) => {
+                if got != exp {
+                    w.write(&json!({"i": i, "ok": false, "hist": hist, "expected": exp, "got": got}))?;
+                }
+            }
+            Err(_) => {
+                w.write(&json!({"i": i, "ok": false, "hist": hist, "expected": exp, "got": "PANIC"}))?;
+            }
+        }
+    }
+    w.write(&json!({"done": vecs.len()}))?;
+    w.finish()
+}
+
+/// Seeded random histories (longer, both whole-line and line-splitting fragments, `write!`),
+/// logged with the projected state after every call for Trace_SourceBuf.tla.
+pub fn record(seed: u64, n: usize, out: &str) -> Result<()> {
+    let mut rng = Rng::new(seed);
+    let mut w = NdjsonWriter::create(out)?;
+    let pieces = ["x", "x ", " x", "{", "}", "x {", "} ", "//", "//x {", "  ", "x  ", "} x {", "{}", "}{", "x}x", "// }", ""];
+    for _ in 0..n {
+        w.write(&json!({"op": "reset"}))?;
+        let mut hist: Vec<(String, String)> = Vec::new();
+        let len = 1 + rng.below(10);
+        let mut explicit = 0usize;
+        for _ in 0..len {
+            let r = rng.below(10);
+            let (op, txt) = if r == 0 {
+                explicit += 1;
+                ("indent", String::new())
+            } else if r == 1 && explicit > 0 {
+                explicit -= 1;
+                ("deindent", String::new())
+            } else {
+                let nlines = 1 + rng.below(3);
+                let mut t = String::new();
+                for k in 0..nlines {
+                    t.push_str(*rng.pick(&pieces[..]));
+                    if k + 1 < nlines || rng.chance(1, 2) {
+                        t.push('\n');
+                    }
+                }
+                let op = match rng.below(5) {
+                    0 | 1 => "lit",
+                    2 => "write",
+                    _ => "push",
+                };
+                (op, t)
+            };
+            // `deindent` below the brace level would underflow (documented misuse): skip if the
+            // real level is 0
+            if op == "deindent" {
+                let (_, ind, _, _) = project(&hist);
+                if ind == 0 {
+                    continue;
+                }
+            }
+            hist.push((op.to_string(), txt.clone()));
+            let (s, ind, cont, in_c) = project(&hist);
+            let chars: Vec<String> = txt.chars().map(|c| c.to_string()).collect();
+            let schars: Vec<String> = s.chars().map(|c| c.to_string()).collect();
+            w.write(&json!({"op": if op == "write" {"push"} else {op}, "txt": chars, "s": schars,
+                            "indent": ind, "cont": cont, "inC": in_c}))?;
+        }
+    }
+    w.finish()
+}
